@@ -13,9 +13,15 @@ pub fn quiescence(
     ctx: &mut SearchContext<'_>,
 ) -> Result<Eval, ()> {
     ctx.max_depth_reached = ctx.max_depth_reached.max(plies);
+
+    #[cfg(jgilchrist_tcheran_verif)]
+    crate::engine::util::verif::node("Q", plies, [i32::from(alpha.0), i32::from(beta.0), 0], &[]);
     ctx.nodes_visited += 1;
 
     if plies == MAX_SEARCH_DEPTH {
+        #[cfg(jgilchrist_tcheran_verif)]
+        crate::engine::util::verif::node("QM", plies, [i32::from(eval::eval(game).0), 0, 0], &[]);
+
         return Ok(eval::eval(game));
     }
 
@@ -23,16 +29,25 @@ pub fn quiescence(
         || game.is_stalemate_by_fifty_move_rule()
         || game.is_stalemate_by_insufficient_material()
     {
+        #[cfg(jgilchrist_tcheran_verif)]
+        crate::engine::util::verif::node("D", plies, [0; 3], &[]);
+
         return Ok(Eval::DRAW);
     }
 
     // Check periodically to see if we're out of time. If we are, we shouldn't continue the search
     // so we return Err to signal to the caller that the search did not complete.
     if ctx.time_control.should_stop(ctx.nodes_visited) {
+        #[cfg(jgilchrist_tcheran_verif)]
+        crate::engine::util::verif::node("X", plies, [0; 3], &[]);
+
         return Err(());
     }
 
     let eval = eval::eval(game);
+
+    #[cfg(jgilchrist_tcheran_verif)]
+    crate::engine::util::verif::node("S", plies, [i32::from(eval.0), 0, 0], &[]);
 
     if eval >= beta {
         return Ok(eval);
@@ -48,7 +63,13 @@ pub fn quiescence(
     while let Some(mv) = moves.next(game, ctx, plies) {
         game.make_move(mv);
 
+        #[cfg(jgilchrist_tcheran_verif)]
+        crate::engine::util::verif::node("M", plies, [0, i32::from(alpha.0), 0], &[mv]);
+
         let move_score = -quiescence(game, -beta, -alpha, plies + 1, ctx)?;
+
+        #[cfg(jgilchrist_tcheran_verif)]
+        crate::engine::util::verif::node("R", plies, [i32::from(move_score.0), 0, 0], &[]);
 
         game.undo_move();
 
@@ -65,6 +86,9 @@ pub fn quiescence(
             alpha = move_score;
         }
     }
+
+    #[cfg(jgilchrist_tcheran_verif)]
+    crate::engine::util::verif::node("O", plies, [i32::from(best_eval.0), 3, 0], &[]);
 
     Ok(best_eval)
 }
